@@ -130,6 +130,8 @@ def run(sc):
     stim = []
     for s in sc.get("psends", []):
         stim.append((s["t"], 2, s))
+    for s in sc.get("timers", []):
+        stim.append((s["t"], 3, s))
     for s in sc.get("sends", []):
         stim.append((s["t"], 0, s))
     for s in sc.get("inject", []):
@@ -146,6 +148,12 @@ def run(sc):
         n = sim.node(s["node"])
         if n.silent:
             continue
+        if kind == 3:
+            def tcb(cookie, n=n):
+                sim.log({"ev": "timer", "node": n.name})
+                return False
+            sim.api(n, "add_timer", lambda n=n, s=s: n.ecu.add_timer(s["delta"] / 1e6, tcb), delta=s["delta"])
+            continue
         if kind == 0:
             data = s["data"] if "data" in s else payload(s["size"], s.get("salt", 0))
             tl = s.get("time_limit", 0)
@@ -160,7 +168,7 @@ def run(sc):
             sim.inject(n, s["id"], s["data"], fd=s.get("fd", False))
     sim.run(sc.get("dur", 2_000_000))
     sim.log({"ev": "end", "node": sc["nodes"][0]["name"]})
-    expect = {"all": False, "idle": False, "slack": 0,
+    expect = {"all": False, "idle": False, "slack": 0, "dm": True,
               "bus": not (sc.get("drop") or sc.get("silence") or sc.get("hostile"))}
     expect.update(sc.get("expect", {}))
     sim.peer_objs = peers
